@@ -52,6 +52,9 @@ Fixpoint print_sexp (s : sexp) : list Z :=
              end) xs
   end.
 
+(* linear-time, tail-recursive reverse (List.rev is quadratic and not tail-recursive once extracted) *)
+Definition frev {A} (l : list A) : list A := rev_append l [].
+
 (* ---------- parser ---------- *)
 Inductive tok := TNone | TInt (neg : bool) (v : Z) (seen : bool) | THex (acc : list Z) (hi : option Z) | TSym (acc : list Z).
 
@@ -68,16 +71,16 @@ Definition flush (t : tok) (cur : list sexp) : option (list sexp) :=
   match t with
   | TNone => Some cur
   | TInt neg v seen => if seen then Some (I (if neg then - v else v) :: cur) else None
-  | THex acc None => Some (B (rev acc) :: cur)
+  | THex acc None => Some (B (frev acc) :: cur)
   | THex _ (Some _) => None
-  | TSym acc => Some (S (rev acc) :: cur)
+  | TSym acc => Some (S (frev acc) :: cur)
   end.
 
 (* cur and stack hold reversed lists *)
 Fixpoint parse_go (inp : list Z) (t : tok) (cur : list sexp) (stack : list (list sexp)) : option (list sexp) :=
   match inp with
   | [] => match stack with
-          | [] => match flush t cur with Some c => Some (rev c) | None => None end
+          | [] => match flush t cur with Some c => Some (frev c) | None => None end
           | _ => None
           end
   | c :: r =>
@@ -87,7 +90,7 @@ Fixpoint parse_go (inp : list Z) (t : tok) (cur : list sexp) (stack : list (list
       match flush t cur with Some cur' => parse_go r TNone [] (cur' :: stack) | None => None end
     else if c =? 41 then
       match flush t cur, stack with
-      | Some cur', up :: stack' => parse_go r TNone (L (rev cur') :: up) stack'
+      | Some cur', up :: stack' => parse_go r TNone (L (frev cur') :: up) stack'
       | _, _ => None
       end
     else
